@@ -530,6 +530,45 @@ func runC02(r *mc.Run) {
 			}
 		}
 	}
+	// RELATIVE bundle paths (the process's working directory is moved into a scratch directory while such a
+	// configuration is converted): a path names one file, literally — not the file reached after dropping leading
+	// characters, white space, a scheme, a case difference, an environment reference or a suffix
+	relCwd := map[string]string{}
+	{
+		rdir := filepath.Join(dir, "relative")
+		os.MkdirAll(rdir, 0o755)
+		os.Setenv("VERIF_C02_D", "envdir")
+		type pair struct{ listed, neighbour string }
+		for gi, pr := range []pair{{"fleet/roots.pem", "t/roots.pem"}, {"lab/ca.pem", "ab/ca.pem"}, {"file:roots.pem", "roots.pem"}, {"file/roots.pem", "roots.pem"},
+			{"./.roots.pem", "roots.pem"}, {" roots.pem", "roots.pem"}, {"roots.pem ", "roots.pem"}, {"Roots.pem", "roots.pem"}, {"roots.PEM", "roots.pem"},
+			{"${VERIF_C02_D}/roots.pem", "envdir/roots.pem"}, {"$VERIF_C02_D/roots.pem", "envdir/roots.pem"}, {"~roots.pem", "roots.pem"}, {"roots.pem.pem", "roots.pem"},
+			{"pem/roots", "roots"}, {"https:/roots.pem", "roots.pem"}, {"cert/ca.pem", "a.pem"}, {"roots.pem", "sub/roots.pem"}, {"a/b/roots.pem", "b/roots.pem"}, {"a/b/roots.pem", "a/roots.pem"},
+			{"tmp/roots.pem", "mp/roots.pem"}, {"certs.d/roots.pem", "certs/roots.pem"}} {
+			for flip := 0; flip < 2; flip++ {
+				sub := filepath.Join(rdir, fmt.Sprintf("%d-%d", gi, flip))
+				listedCert, neighbourCert := F.Root, T.Root
+				lists := []bool{false, true}
+				if flip == 1 {
+					listedCert, neighbourCert = T.Root, F.Root
+					lists = []bool{true, false}
+				}
+				lp, np := filepath.Join(sub, pr.listed), filepath.Join(sub, pr.neighbour)
+				if os.MkdirAll(filepath.Dir(lp), 0o755) != nil || os.MkdirAll(filepath.Dir(np), 0o755) != nil {
+					continue
+				}
+				if os.WriteFile(np, world.PEM(neighbourCert), 0o600) != nil || os.WriteFile(lp, world.PEM(listedCert), 0o600) != nil {
+					continue
+				}
+				name := fmt.Sprintf("relative-path-%q-next-to-%q,listed-holds-%s", pr.listed, pr.neighbour, map[int]string{0: "F", 1: "T"}[flip])
+				relCwd[name] = sub
+				cfgs = append(cfgs, struct {
+					name  string
+					rot   *ccpb.RootOfTrust
+					lists []bool
+				}{name, &ccpb.RootOfTrust{CabundlePaths: []string{pr.listed}}, lists})
+			}
+		}
+	}
 	for _, cfg := range cfgs {
 		for qi, w := range baseW {
 			id := fmt.Sprintf("config/%s/quote-under-%s", cfg.name, pkis[qi].Name)
@@ -538,13 +577,21 @@ func runC02(r *mc.Run) {
 			}
 			var opts *verify.Options
 			var cerr error
-			func() { defer world.Recover(&cerr); opts, cerr = verify.RootOfTrustToOptions(cfg.rot) }()
+			func() {
+				defer world.Recover(&cerr)
+				if d := relCwd[cfg.name]; d != "" {
+					if old, err := os.Getwd(); err == nil && os.Chdir(d) == nil {
+						defer os.Chdir(old)
+					}
+				}
+				opts, cerr = verify.RootOfTrustToOptions(cfg.rot)
+			}()
 			out := "config-error"
 			switch {
 			case world.IsPanic(cerr):
 				r.Violate("config:panic", id, "RootOfTrustToOptions crashes: "+errStr(cerr), nil)
 				out = "panic"
-			case cerr != nil && (strings.Contains(cfg.name, "no-newline") || strings.Contains(cfg.name, "crlf")):
+			case cerr != nil && (strings.Contains(cfg.name, "no-newline") || strings.Contains(cfg.name, "crlf") || relCwd[cfg.name] != ""):
 				// every bundle of these configurations holds a well-formed certificate; how an entry ends is immaterial
 				r.Violate("config:refused-although-every-bundle-holds-a-certificate", id, "a configuration whose bundles each hold a certificate is refused: "+errStr(cerr), nil)
 				out = "config-error!"
